@@ -56,7 +56,7 @@ static int initialised = 0;
 static int log_fd = -1;
 static char *roots[MAXROOTS];
 static int nroots = 0;
-static int cls_m = 0, cls_r = 0, cls_c = 0;
+static int cls_m = 0, cls_r = 0, cls_c = 0, cls_p = 0;
 static enum { M_RECORD, M_FAIL, M_KILL, M_PAUSE } mode = M_RECORD;
 static long at1 = -1, at2 = -1;
 static int errno1 = EIO, errno2 = EIO;
@@ -117,18 +117,18 @@ static void enc(char *dst, size_t n, const char *src) {
 static long event_begin(char cls, int *fail_errno) {
     *fail_errno = 0;
     if (!active) return -1;
-    if ((cls == 'm' && !cls_m) || (cls == 'r' && !cls_r) || (cls == 'c' && !cls_c)) return -1;
+    if ((cls == 'm' && !cls_m) || (cls == 'r' && !cls_r) || (cls == 'c' && !cls_c) || (cls == 'p' && !cls_p)) return -1;
     long k = __atomic_fetch_add(&counter, 1, __ATOMIC_SEQ_CST);
     if (mode != M_RECORD && (k == at1 || k == at2)) {
         if (mode == M_KILL) {
             const char *msg = "#KILL\n";
             if (log_fd >= 0) raw_write(log_fd, msg, strlen(msg));
-            kill(getpid(), SIGKILL);
+            syscall(SYS_kill, getpid(), SIGKILL);
         } else if (mode == M_PAUSE) {
             char b[64];
             int l = snprintf(b, sizeof b, "#PAUSE\t%ld\n", k);
             if (log_fd >= 0) raw_write(log_fd, b, l);
-            kill(getpid(), SIGSTOP);
+            syscall(SYS_kill, getpid(), SIGSTOP);
         } else if (mode == M_FAIL) {
             *fail_errno = (k == at1) ? errno1 : errno2;
         }
@@ -178,6 +178,7 @@ __attribute__((constructor)) static void init(void) {
     cls_m = strchr(c, 'm') != NULL;
     cls_r = strchr(c, 'r') != NULL;
     cls_c = strchr(c, 'c') != NULL;
+    cls_p = strchr(c, 'p') != NULL;
     const char *m = getenv("FCSHIM_MODE");
     if (m && !strcmp(m, "fail")) mode = M_FAIL;
     else if (m && !strcmp(m, "kill")) mode = M_KILL;
@@ -684,6 +685,25 @@ int ioctl(int fd, unsigned long req, ...) {
     else r = real_ioctl(fd, req, arg);
     int e = errno;
     event_end(k, cls, name, p1, p2, (req == FICLONE && emulate_clone) ? "emulated" : "", r, r < 0 ? e : 0);
+    errno = e;
+    return r;
+}
+
+/* ------------------------------------------------------------------ process control (class p)
+ * A signal sent to another process (std::process::Child::kill) is a scheduling point between the subject and its
+ * child: pausing here lets the child run first. */
+
+int kill(pid_t pid, int sig) {
+    REAL(int, kill, pid_t, int);
+    if (!active || !cls_p || pid == getpid()) return real_kill(pid, sig);
+    int fe;
+    long k = event_begin('p', &fe);
+    if (fe) { event_end(k, 'p', "kill", NULL, NULL, "", -1, fe); errno = fe; return -1; }
+    int r = real_kill(pid, sig);
+    int e = errno;
+    char info[32];
+    snprintf(info, sizeof info, "sig=%d", sig);
+    event_end(k, 'p', "kill", NULL, NULL, info, r, r < 0 ? e : 0);
     errno = e;
     return r;
 }
